@@ -211,9 +211,19 @@ class RunExperiment(_RunSubprocess):
         # be skipped, so no incorrectness will occur. The new version will not
         # be committed into the version index.
         self._did_retrieve_version = True
-        self._most_relevant_version = ctx.version_index.generate_new_output_version(
-            commit=ctx.current_commit
-        )
+        while True:
+            self._most_relevant_version = (
+                ctx.version_index.generate_new_output_version(
+                    commit=ctx.current_commit
+                )
+            )
+            # A failed or aborted execution leaves its (unrecorded) output
+            # directory behind. Never hand that directory to a new execution
+            # (e.g., when re-running within the same second); each call above
+            # generates a strictly larger version.
+            output_path = self.get_output_path(ctx)
+            if output_path is None or not output_path.exists():
+                break
 
     def _ensure_most_relevant_existing_version_computed(self, ctx: "c.Context"):
         if self._did_retrieve_version:
